@@ -10,6 +10,16 @@ CLAIMED = {
   'note': 'Trusted: Verus/Z3, vstd specs of Vec/BTreeMap/iterators, the axiom that Name\'s derived Ord is a total order, the logged rewrite rules R1/R2; '
           'termination of is_conformant is not proved. Where coercion is applied in the evaluator is not decided.',
  },
+ 'C17': {
+  'text': 'Verus proves a representation invariant (pairwise distinct namespaces and names; both indexes describe exactly the stored list, '
+          'no missing and no stale key; evaluators only for stored names) inductive over new/clear/add/remove/replace/deploy on the real bodies, with '
+          'full functional postconditions (add succeeds iff namespace and name are free and then appends; remove drops exactly the matching models; '
+          'replace always succeeds and substitutes; deploy leaves evaluators exactly for the buildable stored models; evaluation possible iff an evaluator exists; '
+          'every mutation empties the evaluators). Holds for every finite history by induction.',
+  'design_ref': 'DESIGN.md section 5 C17',
+  'note': 'Trusted: Verus/Z3, vstd HashMap/Vec/Arc specs plus added axioms for String keys and Vec::retain; Definitions/ModelEvaluator opaque (namespace, name, builds uninterpreted); '
+          'load_and_deploy_models (file system) assumed to preserve the invariant.',
+ },
 }
 NOT_APPLICABLE = {
  'C01': TODO, 'C02': TODO, 'C03': TODO,
@@ -17,6 +27,6 @@ NOT_APPLICABLE = {
  'C05': TODO, 'C06': TODO,
  'C07': 'deciding code is str/format!/C decNumber string conversion (scientific_to_plain, decQuadToString); Verus has no specs for these str APIs and Kani/CBMC did not finish a 3-character instance in 15 min (DESIGN.md section 6)',
  'C08': TODO, 'C09': TODO, 'C10': TODO, 'C11': TODO, 'C12': TODO, 'C13': TODO, 'C14': TODO, 'C15': TODO,
- 'C17': TODO, 'C18': TODO, 'C19': TODO,
+ 'C18': TODO, 'C19': TODO,
  'C20': 'a schedule property: Kani has no thread support and Verus would need the code rewritten onto its own permission/atomic types; Send+Sync is checked by rustc, not by this family (DESIGN.md section 6)',
 }
